@@ -37,6 +37,12 @@ def violations_of(rel):
     return bad
 
 
+def _dot_leaves():
+    dots = [".", "%2e", "%2E"]
+    return ([a + b for a in dots for b in dots] + dots + [a + b + "x" for a in dots for b in dots][:4] +
+            ["%2F", "%2f..", "..%2F", "..%5C", "%5C..", "%252e%252e", "%25", "%2", "%2g"])
+
+
 class C17(PropBase):
     pid = "C17"
     translators = []
@@ -77,10 +83,33 @@ class C17(PropBase):
                    "they are exercised by the url probe on ~190 hostile/random names per build"]
 
     # ------------------------------------------------------------------ cases
+    def source_literals(self):
+        """String literals of the lookup code itself (a fuzzing dictionary): whatever text the path builders compare
+        against, strip or append is what a hostile module name should contain."""
+        import os
+        import re
+        lits = []
+        for f in ("breakpad-symbols/src/lib.rs", "breakpad-symbols/src/http.rs", "minidump-common/src/utils.rs"):
+            try:
+                src = open(os.path.join(vlib.REPO, f)).read()
+            except OSError:
+                continue
+            src = src.split("#[cfg(test)]")[0]
+            for m in re.finditer(r'"((?:[^"\\\n]|\\.){1,24})"', src):
+                t = m.group(1)
+                if "{" in t or "\\" in t:
+                    continue
+                if t not in lits:
+                    lits.append(t)
+            for m in re.finditer(r"'([^'\\])'", src):
+                if m.group(1) not in lits:
+                    lits.append(m.group(1))
+        return lits[:200]
+
     def gen_cases(self, tier, seed):
         rng = Rng(seed)
         cases = []
-        dist = {"exhaustive_same": 0, "exhaustive_paired": 0, "random": 0}
+        dist = {"exhaustive_same": 0, "exhaustive_paired": 0, "random": 0, "dictionary": 0}
         alpha = [b"a", b".", b"/", b"\\", b":", b"\x00", "\u00e9".encode()]
         ids = ["N", hx("0" * 33), hx("5A9832E5287241C1838ED98914E9B7FF1"), hx("ffffffffffffffffffffffffffffffffffffffff"),
                hx("5a9832e5287241c1838ed98914e9b7ffA0"), hx("3C0D21E41"), hx("000000000"), hx("3c0d21e4FFFFFFFF")]
@@ -119,6 +148,17 @@ class C17(PropBase):
                  b"Windows", b"kernel32", b".pdb", b".PDB", b".Pdb", b".dll", b".DLL", b".sym", b".so", b" ", b"\t", b"\x00", b"%2e",
                  "\u00e9".encode(), "\u212a".encode(), "\u0130".encode(), "\U0001f600".encode(), b"pdb", b"dll", b"_", b"-", b"~", b"..."]
         nrand = 3000 if tier == "quick" else 60000
+        # dictionary block: every source literal as / around the leaf, with each hostile decoration
+        lits = [l.encode() for l in self.source_literals()]
+        atoms += [l for l in lits if len(l) <= 12]
+        decos = [b"", b"..", b".", b"/", b"\\", b"C:", b"a/", b"a/..", b"../", b"..\\", b" "]
+        for l in lits:
+            for d in decos:
+                for w in (d + l, l + d, d + l + d):
+                    did, cid = pick_ids()
+                    cases.append("%s %s %s %s" % (hx(w), hx(w), did, cid))
+                    cases.append("%s %s %s %s" % (hx(b"k.dll"), hx(w), ids[2], cids[2]))
+                    dist["dictionary"] += 2
 
         def rstr():
             n = rng.range(0, 12) if rng.chance(3, 4) else rng.range(10, 60)
@@ -172,13 +212,19 @@ class C17(PropBase):
                   "a?b", "a#b", "a b+c.pdb", "libstdc++.so.6", "\u00e9.pdb", "javascript:x", "1:x", "a%2fb", "%5c", "\x7f", "\x01.", "..\t",
                   "file:x", "x:/y", "?", "#", "%", "~", "a;b=c", "@", "&", "[", "]", "{", "|", "^", "`", "\"", "<", ">", ".", "..."]
 
+    URL_LEAVES = URL_LEAVES + _dot_leaves()
+
     def url_cases(self, seed):
         rng = Rng(seed + 17)
         ident = hx("5A9832E5287241C1838ED98914E9B7FF1")
         cases = ["%s %s %s %s" % (hx("k.dll"), hx(l), ident, hx("5a")) for l in self.URL_LEAVES]
         cases += ["%s N %s %s" % (hx(l), "N", hx("5a")) for l in self.URL_LEAVES[:25]]      # code-info lookup path
-        atoms = ["a", ".", "%", "2", "e", "E", ":", "?", "#", "\t", " ", "\n", "\\"[0], "http", "x", "\u00e9", "+", "-"]
-        for _ in range(120):
+        atoms = ["a", ".", "%", "2", "e", "E", ":", "?", "#", "\t", " ", "\n", "\\"[0], "http", "x", "\u00e9", "+", "-",
+                 "%2e", "%2E", "%2f", "%2F", "%5c", "%5C", "%25", ".."] + [l for l in self.source_literals() if len(l) <= 12]
+        for l in self.source_literals():
+            for form in (l, ".." + l, l + "..", "." + l, "%2E%2E" + l):
+                cases.append("%s %s %s %s" % (hx("k.dll"), hx(form), ident, hx("5a")))
+        for _ in range(160):
             l = "".join(rng.choice(atoms) for _ in range(rng.range(1, 6)))
             cases.append("%s %s %s %s" % (hx("k.dll"), hx(l), ident, hx("5a")))
         return cases
